@@ -269,3 +269,48 @@ def extra_conditions(fn, ipos, cname, gname):
             continue
         out.append(fn.nloc(c))
     return out
+
+
+def check_invoked_in_place(ctx, tu, rule, scope):
+    """User callables the library stores (callbacks, filters, removal conditions, wrapped listeners) are run *in place*: a library
+    function or lambda that invokes one of its own by-value parameters of class type runs a copy - the state a stateful callable keeps in
+    itself (a budget, a counter, "only once") restarts from the stored original on every call and never advances. Judged for every
+    function of the given scope (predicate on the outermost function) that invokes a callable object at all."""
+    from ..paths import path, root_var_id
+    n = 0
+    for f in tu.fns:
+        if not scope(f.outermost()):
+            continue
+        pids = {p['id']: p for p in f.params}
+        objcalls = []
+        for c in f.calls():
+            o = f.nodes[c]
+            obj = o['args'][0] if (o['cls'] == 'CXXOperatorCallExpr' and o.get('op') == '()' and o.get('args')) else None
+            if obj is not None:
+                objcalls.append((c, obj))
+        if not objcalls:
+            continue
+        bad = []
+        for c, obj in objcalls:
+            p = path(f, obj, resolve_refs=False)
+            vid = root_var_id(p) if len(p) == 1 else None
+            if vid in pids and pids[vid].get('pass') == 'value':
+                t = tu.type(pids[vid]['t'])
+                if t and t.get('rec'):
+                    bad.append('%s (by-value parameter `%s` of type %s)' % (f.nloc(c), pids[vid].get('name'), tu.tstr(pids[vid]['t'])[:60]))
+            elif vid is not None and vid in f.var_decls():
+                # a local object copy-constructed from a stored member (`auto cb = node->callback; cb(...)`)
+                vd = f.var_decls()[vid]
+                t = tu.type(vd['t'])
+                init = vd.get('init')
+                if t and t.get('rec') and not t.get('ref') and init:
+                    x = f.strip_all_casts(init)
+                    if f.is_construct(x) and (f.callee(x) or {}).get('ctor') == 'copy':
+                        a = [y for y in f.nodes[x].get('args', []) if f.nodes[y]['cls'] != 'CXXDefaultArgExpr']
+                        src = path(f, a[0]) if a else ()
+                        if any(seg.startswith('.') for seg in src):
+                            bad.append('%s (local `%s` copied from %s)' % (f.nloc(c), vd['name'], '/'.join(src)))
+        n += 1
+        ctx.ob(rule, f, 'callable objects are invoked in place, not through a by-value copy', not bad,
+               detail='invokes a copy at ' + '; '.join(bad[:3]), key_detail='invoked copy')
+    return n
